@@ -2345,3 +2345,9 @@ def _(E, c):
     r = RefV(Cell(v, 'static:' + name), ())
     E.const_cache[key] = r
     return r
+
+
+@model('slice::from_ref', 'slice::from_mut')
+def _(E, c):
+    # a one-element slice viewing the referenced value (read-only uses: the element is shared by value)
+    return RefV(Cell(VecV([E.deref(c.args[0])], 'Vec<_>'), 'from_ref'), ())
